@@ -1,5 +1,6 @@
-(* Proofs/C19Ttv.v — tensor.ttv / tensor.ttm over the generated tt_dimscheck. *)
-From Coq Require Import List ZArith Bool Lia Permutation.
+(* Proofs/C19Ttv.v — tensor.ttv / tensor.ttm over the GENERATED tt_dimscheck: guard = decide pre for every request
+   (explicit modes, excluded modes, default), now that the helper itself refuses repeated and out-of-range modes. *)
+From Coq Require Import List ZArith Bool Lia Permutation Sorted.
 From PV Require Import Np.NpZ Gen.GenUtils Proofs.NpZProofs Proofs.UtilsProofs Model.C19Guards Proofs.C19Proofs.
 Import ListNotations.
 Local Open Scope Z_scope.
@@ -7,3 +8,206 @@ Local Open Scope Z_scope.
 Theorem tensor_ttv_rejects_out_of_range s vlens d x :
   In x d -> ndim s <= x -> guard_tensor_ttv s vlens (Some d) None = Err.
 Proof. intros. eapply is_err_ttv_of_dimscheck, dimscheck_rejects_out_of_range; eauto. Qed.
+
+(* ---------------------------------------------------------------------------------------- *)
+(* list facts                                                                                 *)
+(* ---------------------------------------------------------------------------------------- *)
+Lemma filter_partition {A} (f : A -> bool) l : Permutation (filter (fun x => negb (f x)) l ++ filter f l) l.
+Proof.
+  induction l as [|x l IH]; [constructor|]. cbn. destruct (f x); cbn.
+  - apply Permutation_sym. apply Permutation_cons_app. now apply Permutation_sym.
+  - now constructor.
+Qed.
+
+Lemma modes_ok_spec N d : modes_ok N d = true <-> (forall x, In x d -> 0 <= x < N) /\ NoDup d.
+Proof.
+  unfold modes_ok. rewrite andb_true_iff, forallb_forall, nodupb_spec. split; intros [H1 H2]; split; auto.
+  - intros x Hx. specialize (H1 x Hx). unfold in_range in H1. apply andb_true_iff in H1 as [A B].
+    apply Z.leb_le in A. apply Z.ltb_lt in B. lia.
+  - intros x Hx. specialize (H1 x Hx). unfold in_range. apply andb_true_iff. split; [apply Z.leb_le|apply Z.ltb_lt]; lia.
+Qed.
+
+Lemma modes_ok_perm N d d' : Permutation d d' -> modes_ok N d = modes_ok N d'.
+Proof.
+  intros H. apply eq_iff_eq_true. rewrite !modes_ok_spec. split; intros [A B]; split.
+  - intros x Hx. apply A. eapply Permutation_in; [apply Permutation_sym|]; eauto.
+  - eapply Permutation_NoDup; eauto.
+  - intros x Hx. apply A. eapply Permutation_in; eauto.
+  - eapply Permutation_NoDup; [apply Permutation_sym|]; eauto.
+Qed.
+
+Lemma complement_app_perm N e : modes_ok N e = true -> Permutation (complement N e ++ e) (np_arange 0 N).
+Proof.
+  intros H. apply modes_ok_spec in H as [Hr Hn].
+  eapply Permutation_trans; [|apply (filter_partition (fun x => zmem x e))].
+  apply Permutation_app_head. apply NoDup_Permutation; auto.
+  - apply NoDup_filter, np_arange_NoDup.
+  - intros x. rewrite filter_In, zmem_spec, in_np_arange. split; [intros Hx; split; auto|tauto].
+Qed.
+
+Lemma modes_ok_length N d : 0 <= N -> modes_ok N d = true -> zlen d <= N.
+Proof.
+  intros HN H. apply modes_ok_spec in H as [Hr Hn].
+  assert (L : (length d <= length (np_arange 0 N))%nat).
+  { apply NoDup_incl_length; auto. intros x Hx. apply in_np_arange. auto. }
+  pose proof (np_arange_length 0 N) as E. unfold zlen in *. lia.
+Qed.
+
+Lemma is_permb_complement N e : 0 <= N -> modes_ok N e = true -> is_permb N (complement N e ++ e) = true.
+Proof. intros HN H. apply Permutation_is_permb; auto. now apply complement_app_perm. Qed.
+
+Lemma modes_ok_complement N e : modes_ok N (complement N e) = true.
+Proof.
+  apply modes_ok_spec. split; [apply complement_range|]. apply strict_sorted_nodup, complement_sorted.
+Qed.
+
+Lemma isin_arange_forallb N e : np_all (np_isin e (np_arange 0 N)) = forallb (in_range N) e.
+Proof.
+  apply eq_iff_eq_true. rewrite np_all_isin, forallb_forall. split; intros H x Hx; specialize (H x Hx).
+  - apply in_np_arange in H. unfold in_range. apply andb_true_iff. split; [apply Z.leb_le|apply Z.ltb_lt]; lia.
+  - apply in_np_arange. unfold in_range in H. apply andb_true_iff in H as [A B]. apply Z.leb_le in A. apply Z.ltb_lt in B. lia.
+Qed.
+
+Lemma np_arange_iota n : np_arange 0 (Z.of_nat n) = map Z.of_nat (seq 0 n).
+Proof. unfold np_arange. rewrite Z.sub_0_r, Nat2Z.id. apply map_ext. intros; lia. Qed.
+
+Lemma combine_map_swap {A B} (L : list (A * B)) : combine (map snd L) (map fst L) = map (fun p => (snd p, fst p)) L.
+Proof. induction L as [|[a b] L IH]; [reflexivity|]. cbn. now rewrite IH. Qed.
+
+Lemma combine_swap {A B} (l : list A) (l' : list B) : map (fun p => (snd p, fst p)) (combine l l') = combine l' l.
+Proof. revert l'. induction l as [|a l IH]; intros [|b l']; cbn; try reflexivity. now rewrite IH. Qed.
+
+(* the (multiplicand, mode) pairs tt_dimscheck hands out are the caller's pairs, reordered *)
+Lemma argsort_pairs_perm d : Permutation (combine (np_argsort d) (np_sort d)) (enum d).
+Proof.
+  unfold np_argsort, np_sort, enum. rewrite combine_map_swap.
+  unfold zlen. rewrite np_arange_iota.
+  rewrite <- (combine_swap d (map Z.of_nat (seq 0 (length d)))). apply Permutation_map. apply isort_pairs_perm.
+Qed.
+
+Lemma combine_diag {A} (l : list A) : combine l l = map (fun x => (x, x)) l.
+Proof. induction l as [|x l IH]; [reflexivity|]. cbn. now rewrite IH. Qed.
+
+Lemma in_enum d k m : In (k, m) (enum d) -> 0 <= k < zlen d /\ In m d.
+Proof.
+  unfold enum. intros H. split; [|eapply in_combine_r; eauto].
+  apply in_combine_l in H. apply in_np_arange in H. lia.
+Qed.
+
+Lemma forallb_map {A B} (f : B -> bool) (g : A -> B) l : forallb f (map g l) = forallb (fun x => f (g x)) l.
+Proof. induction l as [|x l IH]; [reflexivity|]. cbn. now rewrite IH. Qed.
+
+(* alignment of the per-multiplicand checks: what the code tests on (vidx[i], sdims[i]) is what the precondition
+   demands of the caller's (position, mode) pairs *)
+Lemma mults_align s (N M : Z) d (g f : Z -> Z -> bool) vidx :
+  (forall x, In x d -> 0 <= x < N) -> (M = zlen d \/ M = N) ->
+  (forall v m, 0 <= v < M -> 0 <= m < N -> g v m = f v m) ->
+  vidx_of N (Some M) d = Some vidx ->
+  forallb (fun vd => g (fst vd) (snd vd)) (combine vidx (np_sort d)) = pre_mults s M d f.
+Proof.
+  intros Hr HM Hgf Hv. unfold vidx_of in Hv. unfold pre_mults, mult_of.
+  destruct (Z.eqb_spec (zlen d) M) as [E|E]; inversion Hv; subst vidx; clear Hv.
+  - rewrite (forallb_perm _ _ _ (argsort_pairs_perm d)). apply forallb_ext_in. intros [k m] Hkm. cbn [fst snd].
+    apply in_enum in Hkm as [Hk Hm]. apply Hgf; [lia|auto].
+  - destruct HM as [HM|HM]; [congruence|]. rewrite combine_diag, forallb_map. cbn [fst snd].
+    rewrite (forallb_perm _ _ _ (np_sort_perm d)).
+    unfold enum. rewrite <- (map_snd_combine (np_arange 0 (zlen d)) d) at 1.
+    + rewrite forallb_map. apply forallb_ext_in. intros [k m] Hkm. cbn [fst snd].
+      apply in_combine_r in Hkm. specialize (Hr m Hkm). apply Hgf; lia.
+    + pose proof (np_arange_length 0 (zlen d)) as L. unfold zlen in *. lia.
+Qed.
+
+(* ---------------------------------------------------------------------------------------- *)
+(* the generated helper, seen from its callers                                                *)
+(* ---------------------------------------------------------------------------------------- *)
+Lemma dimscheck_exclude_as_dims N M e :
+  tt_dimscheck N M None (Some e) =
+  if forallb (in_range N) e then tt_dimscheck N M (Some (complement N e)) None else Err.
+Proof.
+  rewrite !tt_dimscheck_bridge. unfold H_dimscheck, H_dims. rewrite isin_arange_forallb.
+  destruct (forallb (in_range N) e); [|reflexivity]. now rewrite setdiff_arange.
+Qed.
+
+Lemma dimscheck_default_as_dims N M : tt_dimscheck N M None None = tt_dimscheck N M (Some (np_arange 0 N)) None.
+Proof. now rewrite !tt_dimscheck_bridge. Qed.
+
+Lemma modes_ok_arange N : modes_ok N (np_arange 0 N) = true.
+Proof.
+  apply modes_ok_spec. split; [intros x Hx; now apply in_np_arange|]. apply np_arange_NoDup.
+Qed.
+
+(* outcome of the helper on an explicit list, as a boolean case analysis *)
+Lemma dimscheck_some_cases N M d : 0 <= N ->
+  tt_dimscheck N (Some M) (Some d) None =
+  if modes_ok N d && pre_count N M (zlen d)
+  then Ok (np_sort d, vidx_of N (Some M) d) else Err.
+Proof.
+  intros HN. destruct (modes_ok N d) eqn:Hm; cbn [andb].
+  - pose proof (modes_ok_length N d HN Hm) as HP. apply modes_ok_spec in Hm as [Hr Hn].
+    unfold pre_count. destruct (Z.eqb_spec M (zlen d)) as [E|E]; cbn [orb].
+    + apply dimscheck_dims. repeat split; auto; try apply Hr; auto; lia.
+    + destruct (Z.eqb_spec M N) as [E'|E'].
+      * apply dimscheck_dims. repeat split; auto; try apply Hr; auto; lia.
+      * apply dimscheck_rejects_count; auto.
+  - now apply dimscheck_rejects_bad_modes.
+Qed.
+
+Lemma vidx_of_some N M d : exists v, vidx_of N (Some M) d = Some v.
+Proof. unfold vidx_of. destruct (zlen d =? M); eauto. Qed.
+
+(* ---------------------------------------------------------------------------------------- *)
+(* tensor.ttv                                                                                 *)
+(* ---------------------------------------------------------------------------------------- *)
+Lemma ndim_nonneg s : 0 <= ndim s.
+Proof. unfold ndim, zlen. lia. Qed.
+
+Lemma ttv_tail_ok s d : modes_ok (ndim s) d = true ->
+  (if 1 <? ndim s then chk (np_transpose_ok (ndim s) (np_setdiff (ndim s) (np_sort d) ++ np_sort d))
+   else chk ((zlen (np_sort d) <=? 1) || (sz s 0 =? 1))) = Ok tt.
+Proof.
+  intros Hm. pose proof (ndim_nonneg s) as HN.
+  assert (Hs : modes_ok (ndim s) (np_sort d) = true) by (now rewrite (modes_ok_perm _ _ _ (np_sort_perm d))).
+  destruct (Z.ltb_spec 1 (ndim s)).
+  - unfold np_setdiff. rewrite setdiff_arange. fold (complement (ndim s) (np_sort d)).
+    rewrite np_transpose_ok_nonneg.
+    + now rewrite is_permb_complement.
+    + intros x Hx. apply in_app_or in Hx as [Hx|Hx]; [eapply complement_nonneg; eauto|].
+      apply modes_ok_spec in Hs as [Hr _]. specialize (Hr x Hx). lia.
+  - pose proof (modes_ok_length _ _ HN Hs). destruct (Z.leb_spec (zlen (np_sort d)) 1); [reflexivity|lia].
+Qed.
+
+Lemma ttv_some_decides s vlens d :
+  guard_tensor_ttv s vlens (Some d) None = decide (pre_tensor_ttv s vlens (Some d) None).
+Proof.
+  pose proof (ndim_nonneg s) as HN.
+  unfold guard_tensor_ttv, pre_tensor_ttv. cbn [sel_modes pre_sel]. rewrite dimscheck_some_cases by auto.
+  destruct (modes_ok (ndim s) d) eqn:Hm; cbn [andb]; [|reflexivity].
+  destruct (pre_count (ndim s) (zlen vlens) (zlen d)) eqn:Hc; cbn [andb]; [|reflexivity].
+  destruct (vidx_of_some (ndim s) (zlen vlens) d) as [vidx Hv]. rewrite Hv.
+  rewrite ttv_tail_ok by auto. apply decide_by. okb. cbn [is_ok]. rewrite andb_true_r.
+  unfold guard_ttv_sizes. okb.
+  pose proof (modes_ok_length _ _ HN Hm) as HP. apply modes_ok_spec in Hm as [Hr Hn].
+  unfold pre_count in Hc. apply orb_true_iff in Hc. rewrite !Z.eqb_eq in Hc.
+  rewrite <- (mults_align s (ndim s) (zlen vlens) d
+    (fun v m => is_ok (chk (np_idx_ok (zlen vlens) v) ;; chk (np_idx_ok (ndim s) m) ;;
+                       chk (znth (-1) vlens (np_norm (zlen vlens) v) =? szw s m)))
+    (fun v m => znth (-1) vlens v =? sz s m) vidx); auto.
+  intros v m Hv' Hm'. okb. rewrite !np_idx_ok_nonneg, np_norm_nonneg, szw_nonneg by lia.
+  unfold in_range. destruct (Z.leb_spec 0 v), (Z.ltb_spec v (zlen vlens)), (Z.leb_spec 0 m), (Z.ltb_spec m (ndim s)); cbn; try reflexivity; lia.
+Qed.
+
+Theorem tensor_ttv_decides s vlens dims excl :
+  guard_tensor_ttv s vlens dims excl = decide (pre_tensor_ttv s vlens dims excl).
+Proof.
+  destruct dims as [d|], excl as [e|].
+  - unfold guard_tensor_ttv. now rewrite dimscheck_rejects_both.
+  - apply ttv_some_decides.
+  - pose proof (ttv_some_decides s vlens (complement (ndim s) e)) as H.
+    unfold guard_tensor_ttv, pre_tensor_ttv in *. cbn [sel_modes pre_sel] in *.
+    rewrite dimscheck_exclude_as_dims. unfold others. fold (complement (ndim s) e).
+    rewrite modes_ok_complement in H. cbn [andb] in H.
+    destruct (forallb (in_range (ndim s)) e); cbn [andb]; [exact H|reflexivity].
+  - pose proof (ttv_some_decides s vlens (np_arange 0 (ndim s))) as H.
+    unfold guard_tensor_ttv, pre_tensor_ttv in *. cbn [sel_modes pre_sel] in *.
+    rewrite dimscheck_default_as_dims. rewrite modes_ok_arange in H. exact H.
+Qed.
